@@ -26,6 +26,7 @@ import (
 	"strings"
 	"sync"
 	"sync/atomic"
+	"syscall"
 
 	"github.com/goose-lang/goose/machine/filesys"
 	"verif/harness/internal/enc"
@@ -196,6 +197,7 @@ func main() {
 			}
 		}
 		evs := make([][]ev, nthreads)
+		created := make([][]filesys.File, nthreads) // descriptors handed out during the concurrent phase: given back at the end
 		var wg sync.WaitGroup
 		var arrived atomic.Int32
 		start := make(chan struct{})
@@ -228,6 +230,7 @@ func main() {
 							if !ok {
 								return "NOFD"
 							}
+							created[t] = append(created[t], f)
 							return fdOf(f)
 						})
 					case "A":
@@ -322,7 +325,36 @@ func main() {
 			}
 			fmt.Fprintln(w, "E")
 		}
+		// give the descriptors of the set-up phase back (not part of the history)
+		func() {
+			defer func() { recover() }()
+			if appendNum >= 0 {
+				fs.Close(appendFd)
+			}
+			for _, f := range readFds {
+				func() { defer func() { recover() }(); fs.Close(f) }()
+			}
+			if oldNum >= 0 {
+				fs.Close(oldFd)
+			}
+		}()
+		for _, fl := range created {
+			for _, f := range fl {
+				func() { defer func() { recover() }(); fs.Close(f) }()
+			}
+		}
 		if root != "" {
+			// DirFs keeps a descriptor on its root directory and has no way to give it back
+			if ents, err := os.ReadDir("/proc/self/fd"); err == nil {
+				for _, e := range ents {
+					if l, err := os.Readlink("/proc/self/fd/" + e.Name()); err == nil && l == root {
+						var n int
+						if _, err := fmt.Sscanf(e.Name(), "%d", &n); err == nil {
+							syscall.Close(n)
+						}
+					}
+				}
+			}
 			os.RemoveAll(root)
 		}
 	}
